@@ -149,6 +149,15 @@ def subject_choices(ns, max_s=3, antichain=True, exclude=()):
 # --------------------------------------------------------------------------- renaming
 
 
+def renamed_graph(ns, I, naming: str):
+    """(ns, I) with every dotted component mapped through the named injective renaming."""
+    m = NAMINGS[naming]
+    if not m:
+        return list(ns), list(I)
+    return [rename(n, m) for n in ns], [(rename(a, m), rename(b, m)) for a, b in I]
+
+
+
 def rename(name: str, mapping: dict) -> str:
     """Rename dotted components position-independently through an injective map."""
     return ".".join(mapping.get(c, c) for c in name.split("."))
@@ -185,8 +194,21 @@ NAMING_UNICODE = {
     "p": "ääb",
     "q": "b",
 }
+# children repeat the name of their parent / of the root: r.r, r.ra, r.r.r ... (a child's own name
+# starts with the text of the package that contains it)
+NAMING_SELFPREFIX = {
+    "r": "r",
+    "a": "r",
+    "b": "ra",
+    "c": "r_a",
+    "d": "rr",
+    "e": "re",
+    "p": "rp",
+    "q": "a",
+}
 NAMINGS = {
     "identity": {},
+    "selfprefix": NAMING_SELFPREFIX,
     "plain": NAMING_PLAIN,
     "adversarial": NAMING_ADVERSARIAL,
     "unicode": NAMING_UNICODE,
